@@ -485,10 +485,9 @@ macro_rules! run_root {
             steps.push(StepOut { hint, tl_len, tl_empty, rest, capped });
         }
         let clean = Iterator::all(&mut steps.iter(), |s: &StepOut| {
-            !s.capped
-                && s.hint.1 == Some(s.rest.len())
-                && s.tl_len == Some(s.rest.len())
-                && s.tl_empty == Some(s.rest.is_empty())
+            // the collector is safe to run whenever the announced length is right; a wrong
+            // `is_empty()` is reported on its own and must not hide what the collector does
+            !s.capped && s.hint.1 == Some(s.rest.len()) && s.tl_len == Some(s.rest.len())
         });
         // terminal through the iterator's own consuming method, only on a clean history
         let term = if clean && t.terminal != TTerm::Drain {
